@@ -163,6 +163,11 @@ class ExprMixin:
         return self.get_attr(base, node.attr, st, node)
 
     def get_attr(self, base, attr, st, node=None):
+        if isinstance(base, SOpt):
+            # attribute access on an Optional: must not be None here
+            self.emit("safe.none", f"{attr}@L{getattr(node, 'lineno', 0)}", st, z3.Not(base.isnone))
+            self.assume_here(st, z3.Not(base.isnone))
+            base = base.val
         if isinstance(base, ModuleRef):
             return self.module_attr(base, attr)
         if isinstance(base, SV) and isinstance(base.ty, TObj):
